@@ -1,13 +1,14 @@
 #!/bin/sh
 # verify_seed.sh <ID> <X> : confirms a seeded change in its scratch worktree /tmp/wt/<ID>
+# (WT=<root> selects another worktree root, e.g. /tmp/wt2 for the second round)
 # (demo fails with the change and passes without it; the pinned baseline still passes with it). Prints one summary line.
-ID=$1; X=$2; W=/tmp/wt/$ID; P=$W/_seed/$X
+ID=$1; X=$2; R=${WT:-/tmp/wt}; W=$R/$ID; P=$W/_seed/$X
 cd $W || exit 2
 git checkout -q -- scared
 git apply --check $P/patch.diff 2>/dev/null || { echo "$ID/$X patch-does-not-apply"; exit 1; }
-PYTHONPATH=$W timeout 300 /venv/bin/python $P/demo.py >/tmp/wt/$ID.$X.clean.log 2>&1; C=$?
+PYTHONPATH=$W timeout 300 /venv/bin/python $P/demo.py >$R/$ID.$X.clean.log 2>&1; C=$?
 git apply $P/patch.diff
-PYTHONPATH=$W timeout 300 /venv/bin/python $P/demo.py >/tmp/wt/$ID.$X.mut.log 2>&1; M=$?
-python3 /tmp/tools/baseline_check.py $W >/tmp/wt/$ID.$X.base.log 2>&1; B=$?
+PYTHONPATH=$W timeout 300 /venv/bin/python $P/demo.py >$R/$ID.$X.mut.log 2>&1; M=$?
+python3 /tmp/tools/baseline_check.py $W >$R/$ID.$X.base.log 2>&1; B=$?
 git checkout -q -- scared
-echo "$ID/$X demo_clean=$C demo_mutated=$M baseline=$B $(tail -1 /tmp/wt/$ID.$X.base.log)"
+echo "$ID/$X demo_clean=$C demo_mutated=$M baseline=$B $(tail -1 $R/$ID.$X.base.log)"
